@@ -8,12 +8,33 @@ TRUSTED_BASE = [
 ]
 
 PROPS = {
+    "C04": {
+        "props": "Props/C04.v",
+        "models": ["Model/Frame.v", "Model/FrameCheck.v"],
+        "harness": "h_frame",
+        "results": ["R", "RE"],
+        "text": "Coq theorems: every frame codec (length-field all widths/orders/offsets/adjustments/strips, prepender+matching decoder, varint, delimiter, fixed) decodes the concatenation of admitted frames to exactly those frames for EVERY Reader script (= every fragmentation, empty reads, data-with-EOF) with contents equal to the wire stream; encoder soundness (header always agrees with body or exception). Model tied to the code by differential correspondence on generated configurations x streams x fragmentations (model evaluated in Coq on the implementation's inputs, digests compared).",
+        "note": "Trusted: Coq kernel + vm_compute; hand-written model of codec/frame validated by correspondence; io.ReadFull/MultiReader/bytes.Reader/binary varint semantics as modelled in Base/Reader.v and Model/Frame.v; Go harness. Widths 4/8 exercised on the implementation only up to ~70 KB bodies (all lengths by theorem).",
+        "assumes": ["io.Reader contract as in Base/Reader.v scripts (finite streams; reads return at most the buffer size)",
+                    "delimiter codec round-trip requires bytes not to arrive together with EOF (plain script), as net.Conn guarantees"],
+    },
+    "C08": {
+        "props": "Props/C08.v",
+        "models": ["Model/Frame.v", "Model/FrameCheck.v"],
+        "harness": "h_frame",
+        "results": ["R", "RE"],
+        "text": "Coq theorems over EVERY script (any bytes, fragmentation, end behaviour): a delivered frame is a completely received stretch of the stream within [header, max] (incl. wrapped/negative 8-byte length fields), end of stream / truncation yields an exception and never a frame, no decoder reaches the model's Fault state, bytes pulled per frame are bounded by max (+10-byte varint header). Correspondence on adversarial, truncated and random streams with Go-side completeness oracles that parse the stream independently.",
+        "note": "Trusted: as C04. That an exception closes the channel is C07's statement (tail handler), exercised end-to-end by h_life.",
+        "assumes": ["io.Reader contract as in Base/Reader.v scripts"],
+    },
     "C19": {
         "props": "Props/C19.v",
         "models": ["Model/Pool.v", "Model/PoolArithCheck.v"],
         "gen": ["PMath.v", "PoolArith.v"],
         "harness": "h_pool",
         "results": ["R", "RA"],
+        "text": "Coq theorems (c19_get_cap, c19_exclusive, c19_ceil_spec/panics, c19_floor_spec, c19_fill_bits, c19_geometry, c19_class_index_inj) over the pool arithmetic TRANSLATED from utils/pool on every run, for every history, size and capacity; plus differential correspondence of the model and of the translated arithmetic with the real pools, and a concurrent ownership stress.",
+        "note": "Trusted: Coq kernel + vm_compute, the Go->Gallina translator, sync.Pool/make semantics as modelled, the Go harness. No axioms.",
         "assumes": [
             "sync.Pool hands each stored object to at most one Get (or drops it) - modelled, validated by buffer identity in the harness",
             "make([]byte,0,n) / bytes.NewBuffer have capacity exactly n - modelled",
@@ -21,3 +42,6 @@ PROPS = {
         ],
     },
 }
+
+NOT_APPLICABLE = {}
+HOOK_COMMITS = ["060f86f"]
